@@ -334,9 +334,12 @@ def par_validate(spec, cfg, cases, scratch, groups=8, chunk=2000, timeout=1800, 
     # round-robin so that expensive cases (generated in clusters) spread over the JVMs
     idxs = [list(range(g, n, groups)) for g in range(groups)]
 
+    e = {'JAVA_TOOL_OPTIONS': '-Xss16m'}      # deep (finite) recursion of the interpreter over long circuits
+    e.update(env or {})
+
     def one(ix):
         return common.batch_validate(spec, cfg, [cases[i] for i in ix], scratch, chunk=chunk, timeout=timeout,
-                                     workers=workers, env=env)
+                                     workers=workers, env=e)
     with ThreadPoolExecutor(groups) as ex:
         res = list(ex.map(one, idxs))
     verdicts, states, trans, raw = [], 0, 0, []
@@ -347,3 +350,15 @@ def par_validate(spec, cfg, cases, scratch, groups=8, chunk=2000, timeout=1800, 
         raw += r
     verdicts.sort(key=lambda x: x[0])
     return verdicts, states, trans, raw
+
+
+def pmap(fn, items, procs=8, chunksize=16):
+    """Map a module-level function over items in forked worker processes (observation of the implementation is
+    independent per case and seeded per case, so the result does not depend on the number of processes)."""
+    import multiprocessing as mp
+    items = list(items)
+    if procs <= 1 or len(items) < 2 * procs:
+        return [fn(x) for x in items]
+    ctx = mp.get_context('fork')
+    with ctx.Pool(procs) as pool:
+        return pool.map(fn, items, chunksize=chunksize)
